@@ -105,7 +105,7 @@ def generate(rng, idx, tier):
         n = len(kinds)
         # every node as root, then again in another order (residue), then once more after an abort
         ops += [['print', r, {'width': w}] for r in range(n)]
-        ops += [['print', r, {'width': 79}] for r in reversed(range(n))]
+        ops += [['print', r, {'width': 79, 'depth': 100 if idx % 2 else None}] for r in reversed(range(n))]
         if 'box' in kinds:
             ops += [['abort', kinds.index('box'), 1 + idx % 2]]
             ops += [['print', r, {'width': w}] for r in range(n)]
@@ -143,7 +143,9 @@ def generate(rng, idx, tier):
             ops.append(['del', rng.randrange(n), rng.randrange(4)])
         elif k == 'prt':
             ops.append(['print', rng.randrange(n), {'width': rng.choice([10, 30, 79]), 'indent': rng.choice([4, 4, 2]),
-                                                    'sort_dict_keys': rng.random() < 0.2}])
+                                                    'sort_dict_keys': rng.random() < 0.2,
+                                                    # a finite depth that can never bind for <= 6 nodes: the finite-depth code path
+                                                    'depth': rng.choice([None, None, 64, 100])}])
         elif k == 'abort':
             ops.append(['abort', rng.randrange(n), rng.randrange(1, 4)])
         else:
